@@ -11,7 +11,8 @@ use std::collections::BTreeMap;
 use std::panic::{catch_unwind, AssertUnwindSafe};
 
 /// (one name is a proper prefix of the other: object listings by prefix, key prefixes)
-pub const DBS: [&str; 2] = ["d1", "d10"];
+/// d1 / d10: one name is a prefix of the other; the third holds the file-name suffixes of the disk format inside its name
+pub const DBS: [&str; 3] = ["d1", "d10", "app.keys.x-nun.data.v2"];
 pub const KEYS: &[&str] = &["a", "ab", "ké", "b"];
 
 #[derive(Clone, Debug, Serialize, Deserialize, PartialEq)]
@@ -55,7 +56,7 @@ pub fn op_strategy(ndbs: usize) -> impl Strategy<Value = Op> {
 }
 
 pub fn case_strategy(max_len: usize) -> impl Strategy<Value = Case> {
-    (1..3usize).prop_flat_map(move |ndbs| {
+    (1..4usize).prop_flat_map(move |ndbs| {
         (prop::collection::vec(select(vec!["none", "newer", "arbiter"]), ndbs), prop::collection::vec(op_strategy(ndbs), 1..max_len))
             .prop_map(|(s, ops)| Case { strategies: s.into_iter().map(|x| x.to_string()).collect(), ops })
     })
